@@ -402,7 +402,25 @@ def run_with_stub(op, status, body):
         requests.post = orig
 
 
+def replay_success(op):
+    body = '{"accessToken": "A2", "clientToken": "C2", "selectedProfile": {"id": "I2", "name": "N2"}}'
+    orig = requests.post
+    requests.post = lambda *a, **k: _Resp(200, body)
+    try:
+        t = AuthenticationToken('user', 'access', 'client')
+        t.profile.id_, t.profile.name = 'pid', 'pname'
+        k, r = native_call(t.authenticate, 'u', 'p') if op == 'authenticate' else native_call(t.refresh)
+        got = (t.username, t.access_token, t.client_token, t.profile.id_, t.profile.name)
+        want = ('u' if op == 'authenticate' else 'user', 'A2', 'C2', 'I2', 'N2')
+        bad = k != 'ok' or r is not True or got != want
+        return dict(confirmed=bad, call='%s with reply 200 %s' % (op, body), observed='%s %r, token now %r' % (k, r, got))
+    finally:
+        requests.post = orig
+
+
 def replay_op(op, label):
+    if op in ('authenticate', 'refresh') and ('stores' in label or 'success' in label):
+        return replay_success(op)
     for status in (403, 500):
         for body in ('null', '5', '"error errorMessage"', '["error", "errorMessage"]', '{}', 'not json',
                      '{"error": "E", "errorMessage": "M"}'):
